@@ -27,7 +27,7 @@ use crate::chunks::{
     RecursiveParticleIds, SkeletonData, SkeletonFileId, SkinFileIds, TextureAnimationChunk,
     TextureFileIds, WaterfallEffect,
 };
-use crate::common::{M2Array, M2Parse, read_array, read_raw_bytes};
+use crate::common::{M2Array, M2Parse, read_array, read_bytes_checked, read_raw_bytes};
 use crate::error::{M2Error, Result};
 use crate::file_resolver::FileResolver;
 use crate::header::{M2_MAGIC_CHUNKED, M2_MAGIC_LEGACY, M2Header, M2ModelFlags};
@@ -2209,7 +2209,15 @@ fn collect_embedded_skin_data<R: Read + Seek>(
 
     // Read each ModelView structure
     for view_idx in 0..header.views.count {
-        let model_view_offset = header.views.offset + (view_idx * MODEL_VIEW_SIZE as u32);
+        let model_view_offset = view_idx
+            .checked_mul(MODEL_VIEW_SIZE as u32)
+            .and_then(|relative| header.views.offset.checked_add(relative))
+            .ok_or_else(|| {
+                M2Error::ParseError(format!(
+                    "ModelView {} at offset {} lies outside the 32-bit offset range",
+                    view_idx, header.views.offset
+                ))
+            })?;
 
         // Seek to and read the ModelView structure
         reader.seek(SeekFrom::Start(model_view_offset as u64))?;
@@ -2274,9 +2282,7 @@ fn collect_embedded_skin_data<R: Read + Seek>(
         // Read indices data (u16 per entry)
         let indices = if n_indices > 0 && ofs_indices > 0 {
             reader.seek(SeekFrom::Start(ofs_indices as u64))?;
-            let mut data = vec![0u8; n_indices as usize * 2];
-            reader.read_exact(&mut data)?;
-            data
+            read_bytes_checked(reader, n_indices as u64, 2)?
         } else {
             Vec::new()
         };
@@ -2284,9 +2290,7 @@ fn collect_embedded_skin_data<R: Read + Seek>(
         // Read triangles data (u16 per entry)
         let triangles = if n_triangles > 0 && ofs_triangles > 0 {
             reader.seek(SeekFrom::Start(ofs_triangles as u64))?;
-            let mut data = vec![0u8; n_triangles as usize * 2];
-            reader.read_exact(&mut data)?;
-            data
+            read_bytes_checked(reader, n_triangles as u64, 2)?
         } else {
             Vec::new()
         };
@@ -2295,9 +2299,7 @@ fn collect_embedded_skin_data<R: Read + Seek>(
         let properties = if n_properties > 0 && ofs_properties > 0 {
             reader.seek(SeekFrom::Start(ofs_properties as u64))?;
             // Properties are typically 4 bytes per entry (bone indices + padding)
-            let mut data = vec![0u8; n_properties as usize * 4];
-            reader.read_exact(&mut data)?;
-            data
+            read_bytes_checked(reader, n_properties as u64, 4)?
         } else {
             Vec::new()
         };
@@ -2305,9 +2307,7 @@ fn collect_embedded_skin_data<R: Read + Seek>(
         // Read submeshes data
         let submeshes = if n_submeshes > 0 && ofs_submeshes > 0 {
             reader.seek(SeekFrom::Start(ofs_submeshes as u64))?;
-            let mut data = vec![0u8; n_submeshes as usize * submesh_size];
-            reader.read_exact(&mut data)?;
-            data
+            read_bytes_checked(reader, n_submeshes as u64, submesh_size)?
         } else {
             Vec::new()
         };
@@ -2316,9 +2316,7 @@ fn collect_embedded_skin_data<R: Read + Seek>(
         // SkinBatch: 2 bytes (flags/priority) + 22 bytes (11 u16 fields) = 24 bytes
         let batches = if n_batches > 0 && ofs_batches > 0 {
             reader.seek(SeekFrom::Start(ofs_batches as u64))?;
-            let mut data = vec![0u8; n_batches as usize * 24];
-            reader.read_exact(&mut data)?;
-            data
+            read_bytes_checked(reader, n_batches as u64, 24)?
         } else {
             Vec::new()
         };
